@@ -135,10 +135,18 @@ def compare_parts(t, vals, parts, where, raw_ts):
             from vf.observe import raw_ts_pairs
             from vf.model import ts_pairs
             pairs = []
+            exp = ts_pairs(vals)
             for x in parts:
                 if len(x):
+                    start = len(pairs)
                     pairs.extend(raw_ts_pairs(x))
-            exp = ts_pairs(vals)
+                    # single items of the chunk's array and of arrays derived from it
+                    for label, item, want in (('[0]', x[0], exp[start:start + 1]), ('[:][0]', x[:][0], exp[start:start + 1]),
+                                              ('.copy()[-1]', x.copy()[-1], exp[start + len(x) - 1:start + len(x)]),
+                                              ('[::-1][0]', x[::-1][0], exp[start + len(x) - 1:start + len(x)])):
+                        if want and (getattr(item, 'seconds', None), getattr(item, 'second_fractions', None)) != want[0]:
+                            return ['%s: item %s of a raw timestamp chunk is %r, expected TdmsTimestamp%r' % (
+                                where, label, item, want[0])]
             return [] if pairs == exp else ['%s: raw timestamps differ: got %r expected %r' % (where, pairs[:3], exp[:3])]
         nonempty = [np.asarray(x) for x in parts if len(x)]
         for x in nonempty:
